@@ -191,7 +191,9 @@ def dump(in_db, f, **options):
         for table in sorted(db.value_tables):
             f.write(("VAL_TABLE_ " + table).encode(dbc_export_encoding, ignore_encoding_errors))
             for row in db.value_tables[table]:
-                f.write(' {} "{}"'.format(str(row), db.value_tables[table][row]).encode(dbc_export_encoding, ignore_encoding_errors))
+                f.write(' {} "{}"'.format(str(row), db.value_tables[table][row].replace('"', '\\"')).encode(dbc_export_encoding, ignore_encoding_errors))
+            if not db.value_tables[table]:
+                f.write(" ".encode(dbc_export_encoding, ignore_encoding_errors))  # the reader wants a blank behind the name
             f.write(";\n".encode(dbc_export_encoding, ignore_encoding_errors))
         f.write("\n".encode(dbc_export_encoding, ignore_encoding_errors))
 
@@ -829,12 +831,12 @@ def load(f, **options):  # type: (typing.IO, **typing.Any) -> canmatrix.CanMatri
                 temp = regexp.match(decoded)
                 if temp:
                     table_name = temp.group(1)
-                    temp_list = temp.group(2).split('"')
+                    temp_list = list(canmatrix.utils.escape_aware_split(temp.group(2), '"'))
                     value_hash = {}
                     try:
                         for i in range(math.floor(len(temp_list) / 2)):
                             val = temp_list[i * 2 + 1]
-                            value_hash[temp_list[i * 2].strip()] = val.strip()
+                            value_hash[temp_list[i * 2].strip()] = val.replace('\\"', '"')
                     except:
                         logger.error("Error with Line: " + str(temp_list))
                     db.add_value_table(table_name, value_hash)
